@@ -142,6 +142,10 @@ def parseKind (s : String) : WKind :=
 def showKind : WKind → String
   | .csv => "csv" | .json => "json" | .html => "html" | .markdown => "markdown" | .text => "text"
 
+def fmtKind : Format → WKind × Decoration
+  | .csv => (.csv, {}) | .html => (.html, {}) | .markdown => (.markdown, {}) | .json => (.json, {})
+  | .text d => (.text, d)
+
 def parseErrs (s : String) : List (Option Nat) :=
   (listOf s).map (fun e => if e == "nil" then none else some (natOf e))
 
@@ -238,6 +242,43 @@ def step (st : St) (line : String) : St × String :=
     let core := idOf t
     let wr : Wrapper := { kind := kind, core := core, decor := if kind = .text then st.heavy else {} }
     ({ st with w := st.w.wrapEffect kind core, wrappers := st.wrappers.push wr }, s!"W{st.wrappers.size}")
+  | ["newvia", k] =>
+    let kind := parseKind k
+    let (w, t) := st.w.newTable
+    let wr : Wrapper := { kind := kind, core := t, decor := if kind = .text then st.heavy else {} }
+    ({ st with w := w.wrapEffect kind t, wrappers := st.wrappers.push wr }, s!"T{t} W{st.wrappers.size}")
+  | ["autonew", style] =>
+    let (w, t) := st.w.newTable
+    let (kind, decor) := fmtKind (resolveStyle st.reg st.heavy (unhex style))
+    let wr : Wrapper := { kind := kind, core := t, decor := decor }
+    ({ st with w := w.wrapEffect kind t, wrappers := st.wrappers.push wr }, s!"T{t} W{st.wrappers.size} kind={showKind kind}")
+  | ["prender", k, ref] =>
+    let kind := parseKind k
+    let core := if ref.startsWith "T" then idOf ref else (st.wrappers.getD (idOf ref) { kind := .csv, core := 0 }).core
+    let wr : Wrapper := { kind := kind, core := core, decor := if kind = .text then st.heavy else {} }
+    -- X.Render(ref) and X.RenderTo(ref, buf): two fresh wrappers, two passes
+    let w1 := st.w.wrapEffect kind core
+    let (w2, m1) := w1.renderTo x wr
+    let (s1, stop1) := World.renderString m1
+    let w3 := w2.wrapEffect kind core
+    let (w4, m2) := w3.renderTo x wr
+    let stop2 := match m2.res with | .ok _ => none | .error s => some s
+    ({ st with w := w4 }, s!"res={showStop stop1} str={hexOf s1} res2={showStop stop2} out2={hexOf m2.output}")
+  | ["autorender", ref, style] =>
+    let core := if ref.startsWith "T" then idOf ref else (st.wrappers.getD (idOf ref) { kind := .csv, core := 0 }).core
+    let (kind, decor) := fmtKind (resolveStyle st.reg st.heavy (unhex style))
+    let wr : Wrapper := { kind := kind, core := core, decor := decor }
+    let w1 := st.w.wrapEffect kind core
+    let (w2, m1) := w1.renderTo x wr
+    let (s1, stop1) := World.renderString m1
+    let w3 := w2.wrapEffect kind core
+    let (w4, m2) := w3.renderTo x wr
+    let stop2 := match m2.res with | .ok _ => none | .error s => some s
+    ({ st with w := w4 }, s!"res={showStop stop1} str={hexOf s1} res2={showStop stop2} out2={hexOf m2.output}")
+  | ["populate", d] => (st, showDecor (parseDecor d).populate)
+  | ["lenobs", h] =>
+    let s := unhex h
+    (st, s!"lines={joinC ((lines s).map hexOf)} lb={longestLine List.length s} lr={longestLine runeCount s} lc={longestLine x.dw s} sb={s.length} sr={runeCount s}")
   | ["rewrap", k, wv] =>   -- X.Wrap(wrapper)
     let kind := parseKind k
     let core := (st.wrappers.getD (idOf wv) { kind := .csv, core := 0 }).core
